@@ -517,7 +517,7 @@ func (G *genuine) dishonest(v Variant, pub []*big.Int) (plonk.Proof, []*big.Int,
 		switch v.Op {
 		case "wireAll": // one wire changed at all its positions: copy constraints intact, some gate violated
 			wire := pos[(v.Idx*7+v.Idx2)%len(pos)]
-			if wire < np {
+			if wire < np { // public wire or padding position (-1)
 				// changing a public wire everywhere includes its placeholder row: that is variant publicRow
 				wire = np + (v.Idx % (sys.NbSecret + sys.NbIntern + 1))
 			}
